@@ -559,6 +559,13 @@ def parse_stderr(stderr, genfile_name):
             lm = re.match(r'\s*(\d+)\s*\|', ln)
             if lm:
                 cur['lines'].append(int(lm.group(1)))
+    # an error raised against a library specification (e.g. the ensures of From::from reached through `?`) carries no span of
+    # the generated file; Verus then names the function in the following `note: function body check` block
+    for k, b in enumerate(blocks):
+        if b['sev'] == 'error' and not b['lines'] and k + 1 < len(blocks) and blocks[k + 1]['sev'] == 'note' \
+                and blocks[k + 1]['msg'].startswith('function body check'):
+            b['lines'] = list(blocks[k + 1]['lines'])
+            b['text'] += blocks[k + 1]['text']
     return [b for b in blocks if b['sev'] == 'error' and not b['msg'].startswith('aborting due to')]
 
 
